@@ -88,9 +88,12 @@ pub fn pattern(pool_index: usize) -> String {
 }
 
 pub fn out_file(i: usize) -> String {
-    const NAMES: [&str; 14] = [
-        "out.txt", "list0", "/tmp/out.txt", "big.lst", "/var/tmp/scan/list.0", "user_files.txt", "./rel.out", "r-2.out",
-        "sub/dir.lst", "/tmp/out.txt.1", "../up.txt", "F", "/dev/stdout", "/x",
+    // neighbours are often spellings of one path (./x and x, a//b and a/b, case variants): a run
+    // draws a window of consecutive names, so aliases of one file co-occur
+    const NAMES: [&str; 24] = [
+        "out.txt", "./out.txt", "OUT.TXT", "list0", "/tmp/out.txt", "/tmp//out.txt", "big.lst", "./big.lst",
+        "/var/tmp/scan/list.0", "user_files.txt", "./rel.out", "rel.out", "r-2.out", "sub/dir.lst", "sub//dir.lst",
+        "sub/./dir.lst", "/tmp/out.txt.1", "../up.txt", "F", "f", "/dev/stdout", "/x", "//x", "x",
     ];
     NAMES[i % NAMES.len()].to_string()
 }
@@ -152,7 +155,8 @@ fn matcher_test(rng: &mut Rng, cfg: &GenCfg) -> String {
 }
 
 fn perm_arg(rng: &mut Rng) -> String {
-    let prefix = *rng.pick(&["", "", "-", "/"]);
+    // "+MODE" is the obsolete GNU spelling of "/MODE": rejected by the pinned parser
+    let prefix = *rng.pick(&["", "", "", "-", "-", "/", "/", "/", "", "-", "/", "+"]);
     if rng.chance(1, 2) {
         let bits = rng.below(0o7777 + 1);
         if rng.chance(1, 2) {
@@ -427,7 +431,29 @@ pub fn expression(rng: &mut Rng, cfg: &GenCfg) -> String {
 }
 
 /// Texts whose parse or compile *fails* (never panics): their error must be deterministic too.
-pub const ERROR_SUBJECTS: [&str; 14] = [
+pub const ERROR_SUBJECTS: [&str; 34] = [
+    // GNU find spellings and features the pinned parser rejects (a change that starts accepting
+    // one of them must do so deterministically)
+    "-perm +222 -print",
+    "-type f -perm +u+w",
+    "-newer ref.txt",
+    "-mmin +1.5",
+    "-daystart -mtime 1",
+    "-regextype posix-extended -regex 'x.*'",
+    "-wholename '*/x'",
+    "-iwholename x",
+    "-xtype f",
+    "-delete",
+    "-exec ls {} ;",
+    "-mount -name x",
+    "-xdev -print",
+    "-noleaf -print",
+    "-used 1",
+    "-newermt 2020-01-01",
+    "-size 1KiB",
+    "-name x -print -depth 3",
+    "-H -name x",
+    "-not -name x",
     "-name",
     "-amin x",
     "-size 5q",
